@@ -9,7 +9,7 @@ import (
 func init() {
 	register(&Property{
 		ID:          "C17",
-		Explanation: "Liveness itself is not decidable statically. Decides narrow structural necessary conditions of progress: every role has a LocalTick cell and every voter role an Election cell; the leader's tick produces the heartbeat broadcast, the quorum check (when enabled) and the pending-snapshot-ack check on every path, and aborts an overdue leadership transfer; the non-leader tick advances the election clock on every path and raises the Election message when the timeout fires; each paused replication state has an exit driven by a periodic trigger (wait <- every heartbeat response; snapshot <- snapshot status / delayed ack from the leader tick); a replica that learns of a lower-term leader message replies with NoOP whenever check-quorum OR pre-vote is on (so a deposed or stuck replica's higher term reaches the leader); every received message is recorded as activity before it is handed to the raft core (quiesce exit); node.tick advances the clock of every pending-request table on every path (also while quiesced) and the tables' expiry is reachable from the step path, so requests without a quorum end in Timeout rather than hanging.",
+		Explanation: "Liveness itself is not decidable statically. Decides narrow structural necessary conditions of progress: every role has a LocalTick cell and every voter role an Election cell; the leader's tick produces the heartbeat broadcast, the quorum check (when enabled) and the pending-snapshot-ack check on every path, and aborts an overdue leadership transfer; the non-leader tick advances the election clock on every path and raises the Election message when the timeout fires; each paused replication state has an exit driven by a periodic trigger (wait <- every heartbeat response; snapshot <- snapshot status / delayed ack from the leader tick); a replica that learns of a lower-term leader message replies with NoOP whenever check-quorum OR pre-vote is on (so a deposed or stuck replica's higher term reaches the leader); every received message is recorded as activity before it is handed to the raft core (quiesce exit); node.tick advances the clock of every pending-request table on every path (also while quiesced) and the tables' expiry is reachable from the step path, so requests without a quorum end in Timeout rather than hanging. The leader re-evaluates the commit index on every path of removeNode.",
 		NotCovered:  "that these triggers suffice to elect a leader / catch up within bounded time under a fair schedule (liveness)",
 		Run:         runC17,
 	})
